@@ -1115,7 +1115,7 @@ def reshape_from_space(tensor: TorchObsType, space: spaces.Space) -> TorchObsTyp
         #
         reshaped: torch.Tensor = tensor.reshape(-1, *space.shape)
         for squeeze_dim in [0, -1]:
-            if reshaped.size(squeeze_dim) == 1:
+            if reshaped.dim() > 0 and reshaped.size(squeeze_dim) == 1:
                 reshaped = reshaped.squeeze(squeeze_dim)
         return reshaped
 
